@@ -126,6 +126,24 @@ func frameAndMessage(c *mon.Ctx, cs gen.Case, id string) {
 		}
 		c.Count("frame_ok/"+comp, 1)
 		c.Distinct("frame|" + cs.Sig + "|" + comp)
+		// the raw route: a raw frame whose Header.BodyLength is stale when EncodeRawFrame is called (a hand-built
+		// raw frame, a replaced body) must still go out with the length of the body it carries
+		if raw, err := codecs[comp].ConvertToRawFrame(bridge.ToLib(a, flag, bridge.NewVariant(mon.NewRand(c.Seed, hash(id)^uint64(ci))))); err == nil {
+			stale := []int32{0, raw.Header.BodyLength + 7, raw.Header.BodyLength - 1}[hash(id)%3]
+			raw.Header.BodyLength = stale
+			var rb bytes.Buffer
+			c.Eval(1)
+			if err := codecs[comp].EncodeRawFrame(raw, &rb); err == nil {
+				x := rb.Bytes()
+				if len(x) < hl || int(int32(binary.BigEndian.Uint32(x[hl-4:hl]))) != len(x)-hl || int(raw.Header.BodyLength) != len(x)-hl {
+					c.Violation(fmt.Sprintf("rawframe/%s/%s/compression=%s/stale-BodyLength/declared-length", dirName(a), cs.Kind, comp),
+						map[string]interface{}{"id": id, "frame": lazyFrame{a}, "Header.BodyLength_before_EncodeRawFrame": stale, "bytes_hex": hexCap(x),
+							"Header.BodyLength_after": raw.Header.BodyLength, "body_bytes_emitted": len(x) - hl, "seed": c.Seed})
+				} else {
+					c.Count("rawframe_stale_length_ok", 1)
+				}
+			}
+		}
 	}
 	strayFlags(c, cs, id)
 	// message level: EncodedLength == bytes written by Encode
